@@ -1,6 +1,6 @@
 //! Kani harnesses over grafeo-common / grafeo-core (real code, path dependencies on /repo).
 //! Every harness carries `//@` metadata lines that bin/vcheck reads.
-#![allow(unused, clippy::all)]
+#![allow(unused, clippy::all, static_mut_refs)]
 #![cfg_attr(kani, feature(core_io_borrowed_buf, read_buf))]
 extern crate alloc;
 
@@ -14,3 +14,11 @@ mod c16;
 mod c15;
 #[cfg(kani)]
 mod c01;
+#[cfg(kani)]
+mod c13;
+#[cfg(kani)]
+mod c14;
+#[cfg(kani)]
+mod expr;
+#[cfg(kani)]
+mod c20;
